@@ -97,6 +97,11 @@ func RoundtripSweep(run *ev.Run, backend string, vals []interface{}) {
 			run.Violation("insert-error|"+backend, fmt.Sprintf("Insert of a batch of supported documents failed: %v", err), nil)
 			return
 		}
+		// what the caller does with its own document objects afterwards must not reach the stored documents
+		for _, d := range docs {
+			d.Set("f", "changed by the caller after Insert")
+			d.Set("g.h", int64(-1))
+		}
 	}
 	check := func(stage string) {
 		all, err, pan := drv.FindAllMaps(in, &m.Q{Coll: "a"})
